@@ -19,6 +19,7 @@ from proxy.http.parser import HttpParser
 from proxy.http.server import HttpWebServerBasePlugin
 from proxy.common.utils import text_, bytes_
 from proxy.http.exception import HttpProtocolException
+from proxy.http.responses import NOT_FOUND_RESPONSE_PKT
 from proxy.common.constants import (
     COLON, HTTP_PROTO, HTTPS_PROTO, DEFAULT_HTTP_PORT, DEFAULT_HTTPS_PORT,
     DEFAULT_REVERSE_PROXY_ACCESS_LOG_FORMAT,
@@ -112,6 +113,12 @@ class ReverseProxy(TcpUpstreamConnectionHandler, HttpWebServerBasePlugin):
                         break
                 else:
                     raise ValueError('Invalid route')
+
+        if not routed:
+            # Only a follow-up request on a keep-alive connection can get
+            # here: the first request reaches this plugin by a matching route.
+            self.client.queue(NOT_FOUND_RESPONSE_PKT)
+            raise HttpProtocolException('No route matches the request')
 
         if needs_upstream:
             assert self.choice and self.choice.hostname
